@@ -13,7 +13,7 @@ for d in sorted(os.listdir(os.path.join(ROOT, "seeded"))):
         if v.get("rc") == 1:
             caught.append("%s `%s`" % (k.split("/")[0], ", ".join(v.get("clauses") or [])))
     first = m.get("first_attempt", "")
-    first = "as built" if first.startswith("detected by the check as it was") else "**missed at first** - " + first.replace("missed; ", "").replace("missed ", "", 1)
+    first = "as built" if first.startswith("detected by the check as it was") else first[len("as built"):].strip(": ") and "as built - " + first[len("as built"):].strip(": ") if first.startswith("as built") else first if first.startswith(("detected", "NOT DETECTED", "as ")) else "**missed at first** - " + first.replace("missed; ", "").replace("missed ", "", 1)
     rows.append("| %s | %s | %s | %s | %s |" % (m["id"], m.get("summary", "").replace("|", "/"), m.get("needs_to_manifest", "").replace("|", "/"),
                                              "; ".join(caught) or "-", first.replace("|", "/")))
 table = "| change | what it does | needs | caught by (quick) | first attempt |\n| --- | --- | --- | --- | --- |\n" + "\n".join(rows)
